@@ -2,7 +2,7 @@
 from bounded import harness, identitychecks
 from bounded.corpus import corpus, BOUND_TEXT
 
-FAMILIES = ['sel', 'inc', 'dvmet']
+FAMILIES = ['sel', 'inc', 'dvmet', 'mix']
 
 
 def member(desc, tier, seed):
